@@ -337,6 +337,14 @@ pub fn nested_iteration_probes(ctx: &mut Ctx) {
         json!({"reduce": [{"var": "xs"}, {"+": [{"var": "accumulator"}, {"reduce": [[1, 2], plus, {"var": "current"}]}]}, {"var": "n"}]}),
         json!({"map": [{"map": [{"var": "xs"}, {"*": [{"var": ""}, 2]}]}, {"+": [{"var": ""}, 1]}]}),
         json!({"if": [{"some": [{"var": "xs"}, {"+": ["x"]}]}, "t", "f"]}),
+        // a literal collection whose items read the outer element (the one place where array items are expressions)
+        json!({"some": [[{"var": "n"}, {"var": "s"}], {">": [{"var": ""}, 10]}]}),
+        json!({"all": [[{"var": "n"}, 5], {"<": [{"var": ""}, 50]}]}),
+        json!({"!": [{"none": [[{"var": "xs.0"}], {"==": [{"var": ""}, 3]}]}]}),
+        // a default that reads the element, for keys some elements lack
+        json!({"var": ["q", {"var": "n"}]}),
+        json!({"var": ["xs.5", {"var": "s"}]}),
+        json!({"cat": [{"var": ["q", {"var": "n"}]}, "|", {"var": ["n", {"var": "q"}]}]}),
     ];
     let rows = json!([{"n": 1, "xs": [1, 2], "s": "ab"}, {"n": 100, "xs": [], "s": ""}, {"n": 2, "xs": [3], "s": "abc"}, {"n": 3, "xs": null, "s": null}]);
     let d = json!({"rows": rows, "n": "OUTER", "xs": ["OUTER"], "s": "OUTER"});
@@ -436,6 +444,59 @@ pub fn type_grid_probes(ctx: &mut Ctx, ops: &[&str]) {
                     }
                 }
             }
+        }
+    }
+}
+
+/// Depth probes: operands nested to depths around the limits that recursive helpers and "defensive"
+/// caps choose (17, 33, 65, 100, 126 levels of arrays / objects around a leaf), value-checked: the
+/// string form, equality, membership, flattening and truthiness of a deep value are defined like those
+/// of a shallow one.
+pub fn depth_probes(ctx: &mut Ctx) {
+    use crate::alphabet::{nest_arrays, nest_objects};
+    let prop = ctx.prop.clone();
+    for d in crate::alphabet::depth_classes(ctx.tier_thorough) {
+        if !ctx.mine() {
+            continue;
+        }
+        let deep_a = nest_arrays(d, json!(["a", null, 2]));
+        let deep_b = nest_arrays(d, json!(["a", null, 3]));
+        let deep_o = nest_objects(d, json!(1));
+        let deep_mixed = nest_arrays(d / 2, nest_objects(d / 2, json!([7])));
+        let dv = json!({"x": deep_a, "y": deep_b, "o": deep_o, "m": deep_mixed});
+        let (x, y, o, m) = (json!({"var": "x"}), json!({"var": "y"}), json!({"var": "o"}), json!({"var": "m"}));
+        let rules: Vec<Value> = match prop.as_str() {
+            "C16" => vec![
+                json!({"cat": ["<", x, ">"]}), json!({"cat": [deep_a]}), json!({"cat": [o, m]}), json!({"substr": [{"cat": [x]}, 2, 3]}),
+            ],
+            "C15" => vec![
+                json!({"merge": [x, y]}), json!({"merge": [[x], deep_b]}), json!({"in": [x, [y, x]]}), json!({"in": [x, [y]]}), json!({"in": [o, [m, o]]}),
+                json!({"in": [deep_a, [deep_b, deep_a]]}),
+            ],
+            "C07" => vec![json!({"==": [x, "a,,2"]}), json!({"==": [x, y]}), json!({"==": [x, x]}), json!({"!=": [x, "a,,3"]}), json!({"==": [o, "[object Object]"]}), json!({"==": [deep_a, "a,,2"]})],
+            "C08" => vec![json!({"===": [x, x]}), json!({"===": [x, "a,,2"]}), json!({"!==": [o, o]})],
+            "C09" => vec![json!({"<": [x, y]}), json!({"<=": [y, x]}), json!({">": [y, "a,,2"]}), json!({"<": [x, y, "b"]}), json!({"<": [deep_a, deep_b]})],
+            "C06" => vec![json!({"!!": [x]}), json!({"!": [o]}), json!({"if": [m, "t", "f"]}), json!({"filter": [[x, o, m], {"var": ""}]}), json!({"!!": [nest_arrays(d, json!([]))]})],
+            "C10" => vec![json!({"+": [nest_arrays(d, json!(3)), 1]}), json!({"-": [{"var": "n"}, 1]}), json!({"max": [nest_arrays(d, json!("5")), 1]}), json!({"*": [x, 2]})],
+            "C13" => vec![
+                json!({"map": [[x, o], {"var": ""}]}), json!({"filter": [[x, o, 0], {"var": ""}]}), json!({"reduce": [[x, y], {"merge": [{"var": "accumulator"}, [{"var": "current"}]]}, []]}),
+                json!({"map": [x, {"cat": [{"var": ""}]}]}),
+            ],
+            "C14" => vec![json!({"all": [[x, o], {"var": ""}]}), json!({"some": [x, {"==": [{"var": ""}, "a,,2"]}]}), json!({"none": [[m], {"!": [{"var": ""}]}]})],
+            "C11" => vec![
+                json!({"var": format!("x.{}", vec!["0"; d].join("."))}), json!({"var": format!("x.{}.2", vec!["0"; d].join("."))}), json!({"var": format!("o.{}", vec!["k"; d].join("."))}),
+                json!({"var": [format!("o.{}.zz", vec!["k"; d].join(".")), "dflt"]}), json!({"var": format!("x.{}.0.0.0", vec!["0"; d].join("."))}),
+            ],
+            "C12" => vec![json!({"missing": [format!("o.{}", vec!["k"; d].join(".")), format!("o.{}.zz", vec!["k"; d].join(".")), format!("x.{}.1", vec!["0"; d].join("."))]})],
+            "C04" => vec![json!({"merge": [nest_arrays(d, json!({"var": "x"}))]}), json!({"cat": [nest_arrays(d.min(60), json!({"log": "LEAK"}))]}), json!({"if": [true, nest_objects(d, json!({"log": "LEAK"})), 0]})],
+            "C02" => vec![nest_arrays(d, json!({"var": "x"})), nest_objects(d, json!({"log": "LEAK"})), json!({"if": [true, nest_arrays(d, json!({"+": ["x"]}))]})],
+            _ => vec![],
+        };
+        let mut dv = dv;
+        dv["n"] = nest_arrays(d, json!(" 4 "));
+        for r in rules {
+            ctx.edge();
+            ctx.check("depth-probe", &r, &dv);
         }
     }
 }
